@@ -1128,11 +1128,12 @@ impl WorldD {
         cands.push(addr_of(&format!("sometoken{}", rng.below(4))));
         let c = rng.pick(&cands).clone();
         let cur = self.obs.as_ref().and_then(|o| o.snap.allowed.iter().find(|a| a.0 == c).map(|a| a.1));
-        let g = match (cur, rng.below(8)) {
+        let g = match (cur, rng.below(9)) {
             (_, 0) => Value::Null,
+            (_, 8) => json!(*rng.pick(&[0u64, 0, 1, u64::MAX])), // explicit zero is a legal limit, not "no limit"
             (Some(Some(x)), 1) => json!(x.saturating_sub(1)),
             (Some(Some(x)), 2) => json!(x),
-            (Some(Some(x)), 3) => json!(x + 1),
+            (Some(Some(x)), 3) => json!(x.saturating_add(1)),
             _ => json!(rng.range(1, 1_000_000)),
         };
         Step::Tx { sender, target: "ics20".into(), msg: json!({"allow":{"contract": c, "gas_limit": g}}), funds: vec![], fault: None, script: vec![] }
